@@ -21,7 +21,7 @@ theorem jit_prologue_simL (env : Env) (haddr : Nat → Option Nat) (um : Bool) (
   rw [hl0] at hcs
   obtain ⟨k, σ', retAddr, top, hst, hrel0, htop, hrip, hpad, hsaved, hlm⟩ :=
     entry_prologue um c L m σ tgt l hexit hcs (hloc 0 l hl0) hsize he
-  exact ⟨k, σ', retAddr, top, hst, ⟨hrel0, htop, ⟨i0, hi0⟩, ⟨l, hl0, hrip⟩⟩, hpad, hsaved,
+  exact ⟨k, σ', retAddr, top, hst, ⟨hrel0, htop, ⟨i0, hi0⟩, ⟨l, hl0, hrip⟩, rfl⟩, hpad, hsaved,
     congrArg Prod.fst hlm, congrArg Prod.snd hlm⟩
 
 /-- landing pad and epilogue make no external call -/
